@@ -181,10 +181,10 @@ def gen_case(rnd, with_portfolio=None):
     generic = with_portfolio and rnd.random() < 0.5
     # orders handed over as a pandas DataFrame (the constructor takes `orders[col].values`); with every date of a
     # column zone-aware in ONE zone the column is datetime64[ns, tz] and `.values` drops the zone (finding F-20b)
-    frame = n > 0 and rnd.random() < 0.08
+    frame = n > 0 and rnd.random() < 0.2
     force = None
-    if frame and tz_of(g) is not None and rnd.random() < 0.6:
-        force = rnd.choice(['aware', 'aware', 'aware_utc'])
+    if frame and tz_of(g) is not None and rnd.random() < 0.8:
+        force = rnd.choice(['aware', 'aware_utc', 'aware_utc'])
     orders = [gen_order(rnd, g, pts, generic=generic, force=force) for _ in range(n)]
     cols = {k: [o[k] for o in orders] for k in ('start', 'end', 'capa', 'price')}
     case = {'grid': g, 'malformed': None, 'kinds': [o['kind'] for o in orders], 'portfolio': None, 'inert': [], 'frame': frame}
@@ -666,6 +666,45 @@ def oracle_inner(case):
                     'not found (%s)' % res_b if vb is None else '%.9g' % vb, rv), what='second_setup'))
     except Exception as e:
         viol.append(V('order_reference', 'second set-up of the same portfolio on the same grid raises %s: %s' % (type(e).__name__, str(e)[:120]), what='second_setup'))
+    # the order book inside a wrapper with its own window: orders are delivered (and paid) over the part of their window that
+    # lies inside the wrapper's window - the independent formulation with the covers cut to that window
+    T_ = len(F['pts'])
+    if T_ >= 3 and n >= 1:
+        try:
+            from eaopack.portfolio import StructuredAsset, Portfolio
+            i0, i1 = T_ // 3, T_ - max(1, T_ // 4)
+            if i0 < i1:
+                tg_ = rec['tg']
+                ws, we = tg_.timepoints[i0], tg_.timepoints[i1]
+                scn_w = scenario_of(case)
+                nodes_w = scen.make_nodes(scn_w['nodes'])
+                assets_w = []
+                for s_ in scn_w['assets']:
+                    if s_['type'] == 'OrderBook':
+                        ob_w = build_ob(case, s_, nodes_w)
+                        assets_w.append(StructuredAsset(name='wrap', nodes=ob_w.nodes[0], portfolio=Portfolio([ob_w]),
+                                                        start=ws.to_pydatetime(), end=we.to_pydatetime()))
+                    else:
+                        assets_w.append(scen.build_asset(s_, nodes_w))
+                pw = eao.portfolio.Portfolio(assets_w)
+                tgw = scen.make_grid(scn_w['grid'])
+                prw = {k: np.asarray(v, dtype=float) for k, v in scn_w.get('prices', {}).items()}
+                with Quiet():
+                    opw = pw.setup_optim_problem(prw, tgw)
+                resw = impl.solve(opw)
+                F2 = dict(F)
+                F2['cover'] = [[t for t in cv if i0 <= t < i1] for cv in F['cover']]
+                rv2, ref2 = reference(case, F2)
+                obs['wrapped_window'] = [i0, i1]
+                if rv2 is not None:
+                    vs2 = 1e-6 * (1.0 + abs(rv2) + float(np.abs(ref2['c']).sum()))
+                    if isinstance(resw, str):
+                        viol.append(V('order_reference', 'order book inside a structured asset with window [step %d, step %d): not solved (%s), the independent formulation has the optimum %.9g' % (i0, i1, resw, rv2), what='wrapped_window'))
+                    elif abs(float(resw.value) - rv2) > vs2:
+                        viol.append(V('order_reference', 'order book inside a structured asset with window [step %d, step %d): optimum %.9g, independent per-order formulation with the covers cut to the window %.9g' % (
+                            i0, i1, float(resw.value), rv2), what='wrapped_window'))
+        except Exception as e:
+            viol.append(V('order_reference', 'order book inside a structured asset with a window: %s: %s' % (type(e).__name__, str(e)[:150]), what='wrapped_window'))
     # inert orders
     if case.get('inert'):
         ext = [(p, o) for p, o in case['inert']]
